@@ -115,7 +115,7 @@ func goData(ps []tpair) (map[string]any, error) {
 
 // TLA+ source strings are ASCII; these markers stand for non-ASCII characters and bytes.
 var markers = map[string]string{"$e$": "é", "$E$": "É", "$u$": "€", "$g$": "😀", "$r$": "\r", "$z$": "\x00", "$s$": "ß", "$d$": "$", "$b$": "\xef\xbb\xbf", "$i$": "ı", "$l$": "ſ",
-	"$x$": "\xe9", "$c$": "\xe2\x82", "$k$": "\x80"} // the last three are not UTF-8
+	"$x$": "\xe9", "$c$": "\xe2\x82", "$k$": "\x80", "$n$": "\u00a0", "$f$": "\f"} // the last three are not UTF-8
 
 func expandMarkers(s string) string {
 	if !containsDollar(s) {
